@@ -18,6 +18,8 @@ EXTENDS Naturals, Sequences, FiniteSets, TLC, Json
 
 CONSTANTS Alphabet,     \* character classes that may occur in a text
           MaxLen,       \* texts of 0..MaxLen classes are enumerated
+          Prefix,       \* "none", or "comment": every text starts with the opening of a comment, (* , which is not
+                        \* counted in MaxLen (a focused configuration: comments that span several lines need 7 classes)
           Emit          \* TRUE: print one REPLAY record per finished behaviour
 
 VARIABLES text,         \* Seq(Alphabet)
@@ -145,7 +147,8 @@ ScanError == /\ ~AtEnd
                     /\ Advance(n)
              /\ UNCHANGED text
 
-Texts == UNION {[1..n -> Alphabet] : n \in 0..MaxLen}
+PrefixSeq == IF Prefix = "comment" THEN <<"LP", "ST">> ELSE <<>>
+Texts == {PrefixSeq \o t : t \in UNION {[1..n -> Alphabet] : n \in 0..MaxLen}}
 
 Init == /\ text \in Texts
         /\ idx = 1 /\ pos = 0 /\ line = 0 /\ colB = 0 /\ colC = 0 /\ colU = 0
